@@ -410,10 +410,12 @@ Definition hstep (st : state) (id : Z) (c : call) (l : label) : option state :=
       else
         let st := if g_dones c then add_misused st id else st in
         let c := upd_w c (w_err c) WComplete (rd_err c) in
+        (* the error frame is queued FIRST (connection.go SendSystemError: refused only by a
+           closed connection or a full buffer), then doneSending shuts the exchange down --
+           its removal may close a draining connection (checkExchanges) *)
+        let '(st1, ok) := conn_send_syserr st id full in
         let '(c1, chk) := done_sending c in
-        let st1 := commit st id c1 chk in
-        let '(st2, ok) := conn_send_syserr st1 id full in
-        Some (commit st2 id (ret c1 (if ok then 0 else 1)) false)
+        Some (commit st1 id (ret c1 (if ok then 0 else 1)) chk)
   | HSetAppErr _, PIdle =>
       match w_state c with
       | PreArg3 | WComplete => let '(c1, chk) := failed_call c in Some (commit st id (ret c1 1) chk)
